@@ -153,6 +153,7 @@ def run(F, rep, tier):
             else:
                 rep.ok(r3, key, "clear_model_evaluators on every mutating path")
     rep.floor(r1, "index-mutating methods", nmut, 4)
+    all_or_nothing_rule(F, rep, index_fields, fields)
 
     # deploy
     dep = methods.get(W + "::deploy")
@@ -226,3 +227,113 @@ def closure_keys(flow, clos):
         if p.get("k") == "Bind" and p["name"] in names - params:
             out.append(("arg", i))
     return out
+
+
+# ======================================================================================================
+ADD_RE = r"(HashMap::<.*>::insert|Vec::<.*>::push|VacantEntry::<.*>::insert(_entry)?|Entry::<.*>::or_insert(_with|_with_key)?|BTreeMap::<.*>::insert|Vec::<.*>::insert|Vec::<.*>::extend\w*)$"
+DEL_RE = r"(HashMap::<.*>::remove(_entry)?|HashMap::<.*>::retain|Vec::<.*>::retain|Vec::<.*>::remove|Vec::<.*>::swap_remove|Vec::<.*>::pop|Vec::<.*>::truncate|Vec::<.*>::drain|OccupiedEntry::<.*>::remove(_entry)?|BTreeMap::<.*>::remove)$"
+CLR_RE = r"(HashMap::<.*>::clear|Vec::<.*>::clear|BTreeMap::<.*>::clear)$"
+
+
+def all_or_nothing_rule(F, rep, index_fields, fields):
+    """R17.5 (MIR): on every path from entry to a normal return of a public Workspace operation, the set of index fields inserted into (resp. removed
+    from, cleared) is empty or complete - an early `return` / `?` between two of the three updates leaves a stale reservation behind. Forward dataflow
+    over the control-flow graph with the set of possible (kind -> fields touched) states per block; calls to other Workspace methods apply the callee's
+    summary."""
+    import re
+    import mirutil
+    rid = rep.rule("R17.5", "all-or-nothing on every path: at every normal return the indexes inserted into / removed from / cleared are none or all three")
+    idx = {fields.index(f): f for f in index_fields}
+    bodies = {n: b for n, b in F.bodies.items() if n.startswith(W + "::") and b["kind"] != "closure"}
+    summaries = {}
+
+    def field_of_operand(B, op, depth=0):
+        if op[0] not in ("C", "M") or depth > 8:
+            return None
+        pl = op[1]
+        if pl[0] == 1 and len(pl) >= 3 and pl[1] == "*" and isinstance(pl[2], list) and pl[2][0] == ".":
+            return pl[2][1]
+        defs = B.defs.get(pl[0], [])
+        if len(defs) != 1:
+            return None
+        bi, si, kind, st = defs[0]
+        if kind == "call":
+            if re.search(r"(HashMap|BTreeMap)::<.*>::entry$", st["f"].get("p") or "") and st["args"]:
+                return field_of_operand(B, st["args"][0], depth + 1)
+            return None
+        rv = st[2]
+        if rv[0] in ("Ref", "RawPtr"):
+            return field_of_operand(B, ["C", rv[2]], depth + 1)
+        if rv[0] in ("Use", "Cast"):
+            return field_of_operand(B, rv[1] if rv[0] == "Use" else rv[2], depth + 1)
+        return None
+
+    def summarise(n, stack=()):
+        if n in summaries:
+            return summaries[n]
+        b = bodies[n]
+        B = mirutil.Body(F, b)
+        blocks = b["blocks"]
+        effects = {}
+        for bi, bl in enumerate(blocks):
+            t = bl["t"]
+            if bl.get("cleanup") or t[0] != "call":
+                continue
+            p = t[1]["f"].get("p") or ""
+            if p in bodies and p not in stack and p != n:
+                effects[bi] = ("call", summarise(p, stack + (n,)))
+                continue
+            kind = "add" if re.search(ADD_RE, p) else "del" if re.search(DEL_RE, p) else "clr" if re.search(CLR_RE, p) else None
+            if kind and t[1]["args"]:
+                f = field_of_operand(B, t[1]["args"][0])
+                if f in idx:
+                    effects[bi] = (kind, f)
+        # forward dataflow: state = frozenset of (kind, field)
+        states = {0: {frozenset()}}
+        work = [0]
+        outs = set()
+        while work:
+            x = work.pop()
+            cur = set()
+            for stt in states[x]:
+                e = effects.get(x)
+                if e is None:
+                    cur.add(stt)
+                elif e[0] == "call":
+                    for o in e[1]:
+                        cur.add(stt | o)
+                else:
+                    cur.add(stt | {e})
+            t = blocks[x]["t"]
+            if t[0] == "ret":
+                outs |= cur
+            for y in mirutil.normal_successors(t):
+                old = states.get(y, set())
+                new = old | cur
+                if new != old:
+                    states[y] = new
+                    work.append(y)
+        summaries[n] = outs
+        return outs
+
+    nops = 0
+    for n, b in sorted(bodies.items()):
+        if b.get("vis") != "pub":
+            continue
+        outs = summarise(n)
+        if not any(outs):
+            continue
+        nops += 1
+        short = n.split("::")[-1]
+        for kind, word in (("add", "inserts into"), ("del", "removes from"), ("clr", "clears")):
+            masks = {frozenset(f for k, f in o if k == kind) for o in outs}
+            if masks <= {frozenset()}:
+                continue
+            key = "%s:%s:paths" % (short, kind)
+            bad = [m for m in masks if m and m != frozenset(idx)]
+            if bad:
+                rep.violation(rid, key, "%s can return normally on a path that %s only %s (of %s): an early exit between the index updates leaves a stale name or namespace reservation"
+                              % (short, word, sorted(idx[f] for f in bad[0]), sorted(idx.values())), "%s:%s" % (FILE, b["line"]))
+            else:
+                rep.ok(rid, key, "every returning path %s none or all of %s" % (word, sorted(idx.values())))
+    rep.floor(rid, "public operations that touch an index", nops, 4)
